@@ -60,7 +60,7 @@ def register(P):
     reg(P, "C03", ["UtpVerif.Props.C03"], ["calls_resolve", "stream_content", "ack_honesty", "fin_sent", "eof_honest", "completion_honest"], ["txring", "rx"])
     reg(P, "C06", ["UtpVerif.Props.C06"], ["stream_content", "retx_cap"], ["segs"])
     reg(P, "C08", ["UtpVerif.Props.C08"], ["calls_resolve", "task_ends", "inactivity_discipline"])
-    reg(P, "C10", ["UtpVerif.Props.C10"], ["bug_errors"], ["segs", "rx", "wire"])
+    reg(P, "C10", ["UtpVerif.Props.C10", "UtpVerif.Props.C10Inv"], ["bug_errors"], ["segs", "rx", "wire"])
     # component oracles of the extra components
     P.PROPS["C01"]["oracles"]["segs"] = lambda case, impl: P.SEGS_ORACLE(case, impl)
     P.PROPS["C06"]["oracles"]["segs"] = lambda case, impl: P.SEGS_ORACLE(case, impl)
